@@ -1473,6 +1473,14 @@ pub fn tree(rng: &mut Rng) -> Program {
         if a.entry == Entry::Builder {
             a.strategy = *g.rng.pick(&[Strategy::RestartOnly, Strategy::RestartOnly, Strategy::Recreate]);
         }
+        // some leaves are attached to a stream that is still open (it never yields and never ends): they too are
+        // released when their parent goes away, and stop although their stream has not ended
+        if i > 0 && !(0..n).any(|c| parent[c] == i) && g.rng.chance(1, 5) {
+            a.entry = *g.rng.pick(&[Entry::OnStream, Entry::BuilderOnStream]);
+            a.strategy = Strategy::NonRestartable;
+            a.stream = Some(crate::actors::StreamSpec { bursts: vec![], repeat: false, ends: false, always_ready: false });
+            a.started = vec![];
+        }
         g.prog.actors.push(a);
     }
     g.layout(nclients);
